@@ -21,6 +21,9 @@ var solvers = []solverSpec{
 	{"z3-new 5.1.0", func(f string, t time.Duration) []string {
 		return []string{"z3-new", fmt.Sprintf("-T:%d", int(t.Seconds())+1), f}
 	}},
+	{"z3-new 5.1.0 (e-matching only)", func(f string, t time.Duration) []string {
+		return []string{"z3-new", "smt.mbqi=false", "smt.auto_config=false", fmt.Sprintf("-T:%d", int(t.Seconds())+1), f}
+	}},
 	{"z3 4.8.12", func(f string, t time.Duration) []string {
 		return []string{"/usr/bin/z3", fmt.Sprintf("-T:%d", int(t.Seconds())+1), f}
 	}},
@@ -86,10 +89,23 @@ func solveOne(ob *Obligation, dir string, quick, full time.Duration, twoUnsat bo
 			}
 		}
 	}
-	r := runSolver(context.Background(), solvers[0], file, quick)
-	if r.verdict != "unknown" {
-		finish(r)
-		return
+	{
+		qctx, qcancel := context.WithCancel(context.Background())
+		qch := make(chan solveResult, 2)
+		for _, s := range solvers[:2] {
+			s := s
+			go func() { qch <- runSolver(qctx, s, file, quick) }()
+		}
+		for i := 0; i < 2; i++ {
+			r := <-qch
+			// "sat" from the e-matching-only configuration is not trusted (incomplete); only unsat counts
+			if r.verdict == "unsat" || (r.verdict == "sat" && r.solver == solvers[0].name) {
+				qcancel()
+				finish(r)
+				return
+			}
+		}
+		qcancel()
 	}
 	ctx, cancel := context.WithCancel(context.Background())
 	defer cancel()
@@ -101,7 +117,9 @@ func solveOne(ob *Obligation, dir string, quick, full time.Duration, twoUnsat bo
 	var last solveResult
 	for range solvers {
 		r := <-ch
-		last = r
+		if r.verdict == "unknown" || last.solver == "" {
+			last = r
+		}
 		if r.verdict != "unknown" {
 			finish(r)
 			return
